@@ -35,6 +35,9 @@ class Clock(object):
         self.now = self.now + d
         return v
 
+    monotonic = time
+    perf_counter = time
+
     def sleep(self, s):
         d = self.naps[self.sleeps] if self.sleeps < len(self.naps) else 0
         self.sleeps += 1
